@@ -24,6 +24,9 @@ var explorePanic = explore.HasPanic
 // free-running under the race detector.
 var raceScenarios = map[string]func(thorough bool) []*e3Scenario{}
 
+// raceExtra lists additional free-running bodies (real-transport runs) for the -race binary.
+var raceExtra = map[string]func(iters int, thorough bool) int{}
+
 // RunFree executes the scenarios of property id as real goroutines (no scheduler) iters times
 // each. It is the body of the separate -race binary: the race detector reports on stderr.
 func RunFree(id string, iters int, thorough bool) int {
@@ -71,6 +74,9 @@ func RunFree(id string, iters int, thorough bool) int {
 			}
 			total++
 		}
+	}
+	if extra := raceExtra[id]; extra != nil {
+		total += extra(iters, thorough)
 	}
 	fmt.Printf("race-pass property=%s scenarios=%d executions=%d\n", id, len(gen(thorough)), total)
 	return 0
